@@ -67,7 +67,7 @@ class Check:
 
     # -- obligations -----------------------------------------------------------
     def ob(self, rule: str, func: str, construct: str, where: str, ok: bool, detail: str = "",
-           expected: str = None, found: str = None, sample=False):
+           expected: str = None, found: str = None, sample=False, config: str = None):
         """Register one obligation. (rule, func, construct) is the key of the finding."""
         rec = {"rule": rule, "function": func, "construct": construct, "where": where, "ok": bool(ok)}
         if detail:
@@ -76,6 +76,8 @@ class Check:
             rec["expected"] = expected
         if found is not None:
             rec["found"] = found
+        if config is not None:
+            rec["config"] = config
         self.obligations.append(rec)
         if not ok:
             kf = self.match_known(rule, func, construct)
@@ -83,7 +85,12 @@ class Check:
                 rec["known"] = True
                 self.known_hits.append((kf, rec))
             else:
-                self.violations.append(rec)
+                for v in self.violations:
+                    if (v["rule"], v["function"], v["construct"]) == (rule, func, construct):
+                        v.setdefault("also_in_configs", []).append(config or "")
+                        break
+                else:
+                    self.violations.append(dict(rec))
         elif sample or len(self.samples) < 6:
             self.samples.append(rec)
         return ok
@@ -93,6 +100,9 @@ class Check:
             if k.get("rule") == rule and k.get("function") == func and k.get("construct") == construct:
                 return k
         return None
+
+    def scoped(self, config):
+        return _Scoped(self, config)
 
     # -- output ------------------------------------------------------------------
     def finish(self) -> int:
@@ -119,6 +129,8 @@ class Check:
                 print("    expected: %s" % v["expected"])
             if v.get("found") is not None:
                 print("    found:    %s" % v["found"])
+            if v.get("config"):
+                print("    configuration: %s (and %d more)" % (v["config"], len(v.get("also_in_configs", []))))
             print("VIOLATION property=%s replay=%s" % (self.pid, path))
         cov = {
             "explanation": self.explanation,
@@ -156,3 +168,18 @@ class Check:
               % (self.pid, self.tier, n_ob, n_ok, len(self.known_hits), len(self.violations),
                  len(self.analysed["functions"]), self.analysed["paths"], wall))
         return 1 if self.violations else 0
+
+
+class _Scoped:
+    """View of a Check that stamps every obligation with one configuration label."""
+
+    def __init__(self, ck, config):
+        self._ck = ck
+        self._config = config
+
+    def ob(self, *a, **kw):
+        kw.setdefault("config", self._config)
+        return self._ck.ob(*a, **kw)
+
+    def __getattr__(self, name):
+        return getattr(self._ck, name)
